@@ -8,7 +8,7 @@ import re
 
 import z3
 
-from mir_exec import (UNIT, Agg, FnItem, Opaque, Panic, Ref, SBool, SInt, Slice, Str, StringBuf,
+from mir_exec import (MapBuf, SymEnum, SymOpt, UNIT, Agg, FnItem, Opaque, Panic, Ref, SBool, SInt, Slice, Str, StringBuf,
                       Unsupported, VecBuf, clone_value, deep_clone, mk_bool, mk_int, new_ref, INT_BITS, SIGNED,
                       to_signed, Loc, cell_loc, Cell)
 
@@ -250,6 +250,53 @@ def bytes_to_str(ctx, items):
     return Str(chars)
 
 
+def ite(ctx, cond, a, b):
+    """value-level if-then-else; forks only when the two values cannot be merged structurally"""
+    if isinstance(cond, SBool):
+        cond = cond.v
+    if cond is True:
+        return a
+    if cond is False:
+        return b
+    if isinstance(a, SInt) and isinstance(b, SInt) and a.ty == b.ty:
+        return mk_int(z3.If(cond, a.z(), b.z()), a.ty)
+    if isinstance(a, SBool) and isinstance(b, SBool):
+        return mk_bool(z3.If(cond, a.z(), b.z()))
+    if isinstance(a, SymEnum) and isinstance(b, SymEnum) and a.ty == b.ty:
+        return SymEnum(a.ty, ite(ctx, cond, a.disc, b.disc))
+    if isinstance(a, SymOpt) or isinstance(b, SymOpt):
+        a2, b2 = to_symopt(a), to_symopt(b)
+        return SymOpt(ite(ctx, cond, a2.present, b2.present), ite(ctx, cond, a2.fields[0], b2.fields[0]))
+    if isinstance(a, Agg) and isinstance(b, Agg) and a.ty == b.ty and a.variant == b.variant and len(a.fields) == len(b.fields):
+        return Agg(a.ty, a.variant, [ite(ctx, cond, x, y) for x, y in zip(a.fields, b.fields)])
+    if a is b:
+        return a
+    return a if ctx.decide(cond) else b
+
+
+def to_symopt(o):
+    if isinstance(o, SymOpt):
+        return o
+    if o.variant == "Some":
+        return SymOpt(SBool(True), o.fields[0])
+    return SymOpt(SBool(False), None)
+
+
+def opt_present(o):
+    """presence of an Option value as python bool / z3 Bool"""
+    if isinstance(o, SymOpt):
+        return o.present.v
+    return o.variant in ("Some", "Ok")
+
+
+def merge_payload(ctx, cond, a, b):
+    if a is None:
+        return b
+    if b is None:
+        return a
+    return ite(ctx, cond, a, b)
+
+
 # ---------------------------------------------------------------------------------------------
 # iterators
 
@@ -424,11 +471,15 @@ def to_iter(ctx, v):
         return v
     if isinstance(v, VecBuf):
         return SeqIt(v.items)
+    if isinstance(v, MapBuf):
+        return SeqIt([Agg("tuple", None, [k, x]) for k, x in v.entries])
     if isinstance(v, Slice):
         # arrays by value yield elements; &[T] yields references
         return SeqIt(v.items)
     if isinstance(v, Ref):
         inner = v.loc.get()
+        if isinstance(inner, MapBuf):
+            return SeqIt([Agg("tuple", None, [new_ref(k), new_ref(x)]) for k, x in inner.entries])
         if isinstance(inner, (VecBuf, Slice)):
             return SeqIt([new_ref(x) for x in inner.items])
         if isinstance(inner, It):
@@ -939,10 +990,17 @@ def register_all(M):
             if len(x.items) != len(y.items):
                 return False
             return z_and([elem_eq(c, p, q) for p, q in zip(x.items, y.items)])
+        if isinstance(x, SymEnum) or isinstance(y, SymEnum):
+            from mir_exec import variant_index
+            dx = x.disc if isinstance(x, SymEnum) else mk_int(variant_index(x.ty, x.variant), "isize")
+            dy = y.disc if isinstance(y, SymEnum) else mk_int(variant_index(y.ty, y.variant), "isize")
+            return char_eq(dx, dy)
         if isinstance(x, Agg) and isinstance(y, Agg):
             if x.variant != y.variant or len(x.fields) != len(y.fields):
                 return False
             return z_and([elem_eq(c, p, q) for p, q in zip(x.fields, y.fields)])
+        if x is UNIT and y is UNIT:
+            return True
         raise Unsupported("equality of %r and %r" % (x, y))
     M.elem_eq = elem_eq
 
@@ -1040,8 +1098,8 @@ def register_all(M):
             return c.call_callable(a[1], [o.fields[0]])
         return o
     M.add(r"Option::<.*>::and_then::<.*>|Result::<.*>::and_then::<.*>", opt_and_then)
-    M.add(r"Option::<.*>::is_some|Result::<.*>::is_ok", lambda c, m, a: SBool(deref(a[0]).variant in ("Some", "Ok")))
-    M.add(r"Option::<.*>::is_none|Result::<.*>::is_err", lambda c, m, a: SBool(deref(a[0]).variant in ("None", "Err")))
+    M.add(r"Option::<.*>::is_some|Result::<.*>::is_ok", lambda c, m, a: sbool(opt_present(deref(a[0]))))
+    M.add(r"Option::<.*>::is_none|Result::<.*>::is_err", lambda c, m, a: sbool(z_not(opt_present(deref(a[0])))))
 
     def opt_unwrap(c, m, a):
         o = a[0]
@@ -1049,10 +1107,30 @@ def register_all(M):
             return o.fields[0]
         raise Panic("called `unwrap()` / `expect()` on a `%s` value" % o.variant)
     M.add(r"Option::<.*>::unwrap|Option::<.*>::expect|Result::<.*>::unwrap|Result::<.*>::expect", opt_unwrap)
-    M.add(r"Option::<.*>::unwrap_or|Result::<.*>::unwrap_or", lambda c, m, a: a[0].fields[0] if a[0].variant in ("Some", "Ok") else a[1])
+    def opt_unwrap_or(c, m, a):
+        o = a[0]
+        if isinstance(o, SymOpt):
+            return merge_payload(c, o.present.v, o.fields[0], a[1])
+        return o.fields[0] if o.variant in ("Some", "Ok") else a[1]
+    M.add(r"Option::<.*>::unwrap_or|Result::<.*>::unwrap_or", opt_unwrap_or)
     M.add(r"Option::<.*>::unwrap_or_else::<.*>", lambda c, m, a: a[0].fields[0] if a[0].variant == "Some" else c.call_callable(a[1], []))
-    M.add(r"Option::<.*>::or", lambda c, m, a: a[0] if a[0].variant == "Some" else a[1])
-    M.add(r"Option::<.*>::or_else::<.*>", lambda c, m, a: a[0] if a[0].variant == "Some" else c.call_callable(a[1], []))
+    def opt_or(c, m, a):
+        x, y = a[0], a[1]
+        if isinstance(x, SymOpt) or isinstance(y, SymOpt):
+            x, y = to_symopt(x), to_symopt(y)
+            return SymOpt(sbool(z_or([x.present.v, y.present.v])), merge_payload(c, x.present.v, x.fields[0], y.fields[0]))
+        return x if x.variant == "Some" else y
+
+    def opt_or_else(c, m, a):
+        x = a[0]
+        if isinstance(x, SymOpt):
+            if x.present.concrete:
+                return x if x.present.v else c.call_callable(a[1], [])
+            y = c.call_callable(a[1], [])
+            return opt_or(c, m, [x, y])
+        return x if x.variant == "Some" else c.call_callable(a[1], [])
+    M.add(r"Option::<.*>::or", opt_or)
+    M.add(r"Option::<.*>::or_else::<.*>", opt_or_else)
     M.add(r"Option::<.*>::ok_or::<.*>", lambda c, m, a: ok(a[0].fields[0]) if a[0].variant == "Some" else err(a[1]))
     M.add(r"Option::<.*>::ok_or_else::<.*>", lambda c, m, a: ok(a[0].fields[0]) if a[0].variant == "Some" else err(c.call_callable(a[1], [])))
     M.add(r"Option::<.*>::map_or::<.*>", lambda c, m, a: c.call_callable(a[2], [a[0].fields[0]]) if a[0].variant == "Some" else a[1])
@@ -1161,6 +1239,12 @@ def register_all(M):
             return StringBuf(out)
         if target.startswith("Vec"):
             return VecBuf(xs)
+        if target.startswith("BTreeMap") or target.startswith("HashMap"):
+            mp = MapBuf()
+            holder = new_ref(mp, True)
+            for kv in xs:
+                M.map_insert(c, m, [holder, kv.fields[0], kv.fields[1]])
+            return mp
         raise Unsupported("collect into %s" % target)
     M.add(IT + r"::collect::<(?P<t>.*)>", it_collect)
 
@@ -1257,6 +1341,100 @@ def register_all(M):
             out.append(ch)
         return StringBuf(out)
     M.add(r"regex::escape", regex_escape)
+
+    # ---- maps --------------------------------------------------------------------------------
+    MAP = r"(?:BTreeMap|HashMap)"
+    M.add(MAP + r"::<.*>::new", lambda c, m, a: MapBuf())
+
+    def map_insert(c, m, a):
+        mp = deref(a[0])
+        k, v = a[1], a[2]
+        for e in mp.entries:
+            if c.decide(M.elem_eq(c, e[0], k)):
+                old = e[1]
+                e[1] = v
+                return some(old)
+        mp.entries.append([k, v])
+        return none()
+    M.add(MAP + r"::<.*>::insert", map_insert)
+    M.map_insert = map_insert
+    M.add(r"<" + MAP + r"<.*> as Clone>::clone", lambda c, m, a: deep_clone(deref(a[0])))
+    M.add(r"<" + MAP + r"<.*> as IntoIterator>::into_iter", lambda c, m, a: SeqIt([Agg("tuple", None, [k, v]) for k, v in deref(a[0]).entries]))
+    M.add(r"<&" + MAP + r"<.*> as IntoIterator>::into_iter|" + MAP + r"::<.*>::iter", lambda c, m, a: SeqIt([Agg("tuple", None, [new_ref(k), new_ref(v)]) for k, v in deref(a[0]).entries]))
+    M.add(MAP + r"::<.*>::is_empty", lambda c, m, a: SBool(len(deref(a[0]).entries) == 0))
+    M.add(MAP + r"::<.*>::len", lambda c, m, a: usize(len(deref(a[0]).entries)))
+
+    def map_get(c, m, a):
+        mp = deref(a[0])
+        for e in mp.entries:
+            if c.decide(M.elem_eq(c, e[0], a[1])):
+                return some(new_ref(e[1]))
+        return none()
+    M.add(MAP + r"::<.*>::get::<.*>", map_get)
+
+    def map_extend(c, m, a):
+        mp = deref(a[0])
+        for kv in drain(c, to_iter(c, a[1])):
+            map_insert(c, m, [a[0], kv.fields[0], kv.fields[1]])
+        return UNIT
+    M.add(r"<" + MAP + r"<.*> as Extend<.*>>::extend::<.*>", map_extend)
+
+    # ---- Duration (value = Agg("Duration", [u128 nanoseconds])) ---------------------------------
+    def dur(n):
+        return Agg("Duration", None, [n if isinstance(n, SInt) else mk_int(n, "u128")])
+    M.dur = dur
+
+    def widen(v, bits=128):
+        if v.concrete:
+            return mk_int(v.v, "u128")
+        return mk_int(z3.ZeroExt(bits - INT_BITS[v.ty], v.z()), "u128")
+    M.add(r"Duration::from_secs", lambda c, m, a: dur(mk_int(widen(a[0]).z() * 1000000000, "u128")))
+    M.add(r"Duration::from_millis", lambda c, m, a: dur(mk_int(widen(a[0]).z() * 1000000, "u128")))
+    M.add(r"Duration::is_zero", lambda c, m, a: sbool(char_eq(deref(a[0]).fields[0], mk_int(0, "u128"))))
+    M.add(r"Duration::as_secs", lambda c, m, a: mk_int(z3.Extract(63, 0, z3.UDiv(deref(a[0]).fields[0].z(), z3.BitVecVal(1000000000, 128))), "u64"))
+
+    def dur_cmp(c, m, a):
+        x, y = deref(a[0]).fields[0], deref(a[1]).fields[0]
+        lt = z3.ULT(x.z(), y.z())
+        eq = x.z() == y.z()
+        if c.decide(lt):
+            return Agg("Ordering", "Less", [])
+        if c.decide(eq):
+            return Agg("Ordering", "Equal", [])
+        return Agg("Ordering", "Greater", [])
+    M.add(r"<Duration as Ord>::cmp", dur_cmp)
+    M.add(r"<Duration as PartialOrd>::partial_cmp", lambda c, m, a: some(dur_cmp(c, m, a)))
+    M.add(r"<Duration as PartialEq>::eq", lambda c, m, a: sbool(char_eq(deref(a[0]).fields[0], deref(a[1]).fields[0])))
+
+    def bool_cmp(c, m, a):
+        x, y = deref(a[0]), deref(a[1])
+        xv, yv = x.z(), y.z()
+        if c.decide(z3.And(z3.Not(xv), yv)):
+            return Agg("Ordering", "Less", [])
+        if c.decide(xv == yv):
+            return Agg("Ordering", "Equal", [])
+        return Agg("Ordering", "Greater", [])
+    M.add(r"<bool as Ord>::cmp", bool_cmp)
+    M.add(r"<bool as PartialOrd>::partial_cmp", lambda c, m, a: some(bool_cmp(c, m, a)))
+
+    def opt_eq(c, m, a):
+        x, y = deref(a[0]), deref(a[1])
+        if isinstance(x, SymOpt) or isinstance(y, SymOpt):
+            x, y = to_symopt(x), to_symopt(y)
+            both = z_and([x.present.v, y.present.v])
+            neither = z_and([z_not(x.present.v), z_not(y.present.v)])
+            inner = M.elem_eq(c, x.fields[0], y.fields[0]) if x.fields[0] is not None and y.fields[0] is not None else False
+            return sbool(z_or([neither, z_and([both, inner])]))
+        return sbool(M.elem_eq(c, x, y))
+    M.add(r"<Option<.*> as PartialEq>::eq", opt_eq)
+    M.add(r"<Option<.*> as PartialEq>::ne", lambda c, m, a: sbool(z_not(opt_eq(c, m, a).v)))
+
+    M.add(r"<Option<.*> as Default>::default", lambda c, m, a: none())
+    M.add(r"<" + MAP + r"<.*> as Default>::default", lambda c, m, a: MapBuf())
+    M.add(r"<Vec<.*> as Default>::default", lambda c, m, a: VecBuf())
+    M.add(r"<String as Default>::default", lambda c, m, a: StringBuf())
+    M.add(r"<bool as Default>::default", lambda c, m, a: SBool(False))
+    M.add(r"<(usize|u8|u16|u32|u64|i32|i64|isize) as Default>::default", lambda c, m, a: mk_int(0, m.group(1)))
 
     # ---- errors (opaque) ---------------------------------------------------------------------
     M.add(r"anyhow::__private::format_err|anyhow::error::<impl anyhow::Error>::msg::<.*>|anyhow::Error::msg::<.*>|anyhow::__private::must_use", lambda c, m, a: Opaque("anyhow::Error"))
